@@ -200,6 +200,8 @@ func (o op) String() string {
 		return fmt.Sprintf("AddNum(%v)", o.nums)
 	case "range":
 		return fmt.Sprintf("AddRange(%d,%d)", o.a, o.b)
+	case "arg":
+		return fmt.Sprintf("on-an-earlier-AddSet-argument:%v", o.sub)
 	default:
 		return fmt.Sprintf("AddSet(%v)", o.sub)
 	}
@@ -494,16 +496,49 @@ func TestPropSetOps(t *testing.T) {
 		var hist []op
 		n := rapid.IntRange(1, 14).Draw(t, "steps")
 		merged, big, star := false, false, false
+		// argument sets of AddSet stay alive (a caller keeps using them): they
+		// must not change when the receiver changes, and the receiver must not
+		// change when they do
+		type keptSet struct {
+			s sut
+			m model
+		}
+		var kept []*keptSet
 		for i := 0; i < n; i++ {
-			o := genOp(t, &used, 0)
-			hist = append(hist, o)
-			before := len(s.raw)
-			s.apply(o)
-			m.apply(o)
-			if len(s.raw) < before {
-				merged = true
+			if len(kept) > 0 && rapid.IntRange(0, 4).Draw(t, "mutate-argument") == 0 {
+				k := kept[rapid.IntRange(0, len(kept)-1).Draw(t, "which")]
+				o := genOp(t, &used, 1)
+				hist = append(hist, op{kind: "arg", sub: []op{o}})
+				k.s.apply(o)
+				k.m.apply(o)
+				ev.Class("argument-set-mutated-after-AddSet")
+			} else {
+				o := genOp(t, &used, 0)
+				hist = append(hist, o)
+				before := len(s.raw)
+				if o.kind == "set" {
+					k := &keptSet{}
+					for _, so := range o.sub {
+						k.s.apply(so)
+						k.m.apply(so)
+					}
+					s.raw.AddSet(k.s.raw)
+					s.seq.AddSet(k.s.seq)
+					s.uid.AddSet(k.s.uid)
+					kept = append(kept, k)
+				} else {
+					s.apply(o)
+				}
+				m.apply(o)
+				if len(s.raw) < before {
+					merged = true
+				}
 			}
-			checkAll(t, &s, m, probesFor(used), hist)
+			probes := probesFor(used)
+			checkAll(t, &s, m, probes, hist)
+			for ki, k := range kept {
+				checkAll(t, &k.s, k.m, probes, fmt.Sprintf("(argument set #%d of AddSet, after the later operations) %v", ki, hist))
+			}
 		}
 		for _, u := range used {
 			if u >= ^uint32(0)-1 {
